@@ -210,10 +210,12 @@ def _run_whole(D):
         seams.RNG.begin(D, sut_seed, 0.0)
         w = W.World(D, sim, fail='none', precision=0, with_tol=True, ncons=wncons, name='c07w')
         db = None
+        late_store = use_db and D.dec('cfg', 'late_store', 3) == 1     # "algorithm first, store second" is a legal order
         if use_db:
             db = W.fresh_db('c07w' + tag)
             dbs.append((w, db))
-            W.attach_store(w, db)
+            if not late_store:
+                W.attach_store(w, db)
         if kind == 'sweep':
             from artap.algorithm_sweep import SweepAlgorithm
             from artap import operators as ops
@@ -224,6 +226,9 @@ def _run_whole(D):
             alg.options['max_processes'] = nworkers
         else:
             alg = W.make_algorithm(kind, w, N, G, workers=nworkers, evaluator=wev)
+        if late_store:
+            W.attach_store(w, db)
+            ctx.probe('store_attached_after_algorithm')
         if hook:
             real = alg.evaluator.evaluate
 
@@ -240,7 +245,17 @@ def _run_whole(D):
 
     try:
         sim.ev('serial_twin')
-        wt, dbt = one(1, 't', False)
+        try:
+            wt, dbt = one(1, 't', False)
+        except (kernel.Deadlock, kernel.StepCap, kernel.Livelock):
+            raise
+        except Exception as e:
+            if type(e).__name__ == 'HarnessError':
+                raise
+            # no failure is injected in this family: the objective answered every call, yet the serial reference run died
+            ctx.violation('exception_in_worker', 'serial reference run', 'the serial %s run raised %r although the objective never '
+                          'failed (%d calls answered)' % (kind, e, sum(1 for w_, _ in dbs for _c in w_.calls)))
+            return core.result(ctx, sim)
         sim.ev('parallel_run')
         try:
             wp, dbp = one(workers, 'p', True)
@@ -331,13 +346,19 @@ def _run_batch(D):
     w = W.World(D, sim, fail='none', with_tol=True, precision=0, name='c07')
     twin = W.World(D, sim, fail='none', with_tol=True, precision=0, name='c07')
     db = dbt = None
+    late_store = use_db and D.dec('cfg', 'late_store', 3) == 1         # "algorithm first, store second" is a legal order
     if use_db:
         db = W.fresh_db('c07')
         dbt = W.fresh_db('c07t')
-        W.attach_store(w, db)
-        W.attach_store(twin, dbt)
+        if not late_store:
+            W.attach_store(w, db)
+            W.attach_store(twin, dbt)
     alg = W.dummy_algorithm(w, workers=workers, evaluator=ev_kind)
     algt = W.dummy_algorithm(twin, workers=1, evaluator=ev_kind)
+    if late_store:
+        W.attach_store(w, db)
+        W.attach_store(twin, dbt)
+        ctx.probe('store_attached_after_algorithm')
     ctx.sample = {'family': 'batch', 'evaluator': ev_kind, 'store': 'sqlite' if use_db else 'dummy',
                   'workers': workers, 'policy': sim.policy, 'stall_p': sim.stall_p, 'timed': sim.timed,
                   'n': w.n, 'm': w.m, 'ncons': w.ncons, 'box': w.boxkind, 'batches': []}
@@ -345,7 +366,7 @@ def _run_batch(D):
     prevt = []
     try:
         for b in range(nbatches):
-            nd = 2 + D.dec('cfg', ('ndes', b), 9)
+            nd = 2 + D.size('cfg', ('ndes', b), 9)
             vecs = [W.gen_vector(w, D, 'work', ('v', b, i)) for i in range(nd)]
             if use_db and prev and ev_kind == 'simple' and D.dec('cfg', ('reload', b), 3) == 1:
                 # a later session continues on the same file (parallel and serial twin alike): the designs read back
@@ -361,6 +382,16 @@ def _run_batch(D):
                 algt = W.dummy_algorithm(twin, workers=1, evaluator=ev_kind)
                 sim.ev('reload', b, len(prev))
             batch = [Individual(v) for v in vecs]
+            shared_id = None
+            if not use_db and ev_kind == 'simple' and nd >= 2 and D.dec('cfg', ('sameid', b), 5) == 1:
+                # two design objects that carry one id (deep copies of a design, designs read back from two result files):
+                # they are two designs of the batch.  (Not with a store: one row per id, the last writer would win.)
+                shared_id = (D.dec('cfg', ('sameid_a', b), nd), D.dec('cfg', ('sameid_b', b), nd))
+                if shared_id[0] != shared_id[1]:
+                    batch[shared_id[1]].id = batch[shared_id[0]].id
+                    ctx.probe('two_designs_one_id')
+                else:
+                    shared_id = None
             reuse = 0
             if prev and D.dec('cfg', ('reuse', b), 2):
                 reuse = min(len(prev), 1 + D.dec('cfg', ('nreuse', b), 3))
@@ -369,7 +400,16 @@ def _run_batch(D):
             fresh = batch[reuse:]
             ctx.sample['batches'].append({'designs': nd, 'reused': reuse})
             sim.ev('batch', b, nd, reuse)
-            with W.quiet():
+            from .. import seams as _seams
+            outer = _seams.backend_context('loky' if D.dec('fault', ('outer_backend', b), 5) == 1 else None)
+            if outer.name:
+                ctx.probe('inside_process_backend_context')     # the caller's own joblib context must not un-share the designs
+            if use_db and D.flag('fault', ('foreign_lock', b), 0.15):
+                # another process (a viewer, a backup) holds the database exclusively for a while: the workers' writes are
+                # retried until it is gone; every design is still persisted when evaluate() returns
+                _seams.take_foreign_lock(sim, db, (3.0, 12.0, 31.0)[D.dec('fault', ('foreign_hold', b), 3)])
+                ctx.probe('foreign_lock')
+            with W.quiet(), outer:
                 try:
                     alg.evaluate(batch)
                 except kernel.Deadlock:
@@ -382,10 +422,24 @@ def _run_batch(D):
                     ctx.violation('exception_in_worker', 'Evaluator.evaluate_parallel',
                                   'parallel evaluate raised %r without any injected failure' % (e,))
                     break
+            if sim.foreign_lock is not None:
+                _seams.release_foreign_lock(sim)      # the foreign holder never outlives the operation it disturbed
             # ---- reference: the same batch through the same code, serially
-            batcht = prevt[:reuse] + [Individual(v) for v in vecs]
+            fresht = [Individual(v) for v in vecs]
+            if shared_id:
+                fresht[shared_id[1]].id = fresht[shared_id[0]].id
+            batcht = prevt[:reuse] + fresht
             with W.quiet():
-                algt.evaluate(batcht)
+                try:
+                    algt.evaluate(batcht)
+                except (kernel.Deadlock, kernel.StepCap, kernel.Livelock):
+                    raise
+                except Exception as e:
+                    if type(e).__name__ == 'HarnessError':
+                        raise
+                    ctx.violation('exception_in_worker', 'serial reference batch', 'serial evaluate raised %r although the '
+                                  'objective never failed' % (e,))
+                    break
             _compare(ctx, w, twin, batch, batcht, fresh, ncalls0, ev_kind, b)
             if use_db:
                 _compare_rows(ctx, db, dbt, batch, batcht, ev_kind)
@@ -401,6 +455,8 @@ def _run_batch(D):
             ctx.checks = 0
     finally:
         alg = algt = None
+        from .. import seams as _seams2
+        _seams2.release_foreign_lock(sim)
         w.problem.data_store = None
         twin.problem.data_store = None
         if db:
